@@ -2,6 +2,7 @@
 package c14
 
 import (
+	"errors"
 	"fmt"
 	"os"
 	"path/filepath"
@@ -40,6 +41,9 @@ type Case struct {
 	User     string `json:"user"`
 	Password string `json:"password"`
 	Config   bool   `json:"config"` // an ssh config file is given
+	// KeyEnc (auth key/both): the key file is protected by a passphrase and the configured
+	// passphrase is the right one ("right") or another one ("wrong")
+	KeyEnc string `json:"key_enc,omitempty"`
 	// V6: the server listens on, and the driver is pointed at, the IPv6 loopback address ::1
 	V6 bool `json:"v6,omitempty"`
 }
@@ -90,6 +94,10 @@ func gen(t *rapid.T) Case {
 
 	c.Netconf = rapid.IntRange(0, 2).Draw(t, "netconf") == 0
 	c.Rewrite = rapid.Bool().Draw(t, "rewrite")
+
+	if c.Auth != "password" {
+		c.KeyEnc = rapid.SampledFrom([]string{"", "", "right", "wrong"}).Draw(t, "keyEnc")
+	}
 
 	return c
 }
@@ -151,7 +159,17 @@ func run(c Case) ev.Verdict {
 		}
 	}
 
-	keyPEM, keyPub, err := sim.GenClientKey()
+	keyPass, givenPass := "", ""
+	if c.KeyEnc != "" {
+		keyPass = "kp-" + c.Password
+		givenPass = keyPass
+
+		if c.KeyEnc == "wrong" {
+			givenPass = "not-" + keyPass
+		}
+	}
+
+	keyPEM, keyPub, err := sim.GenClientKeyEnc(keyPass)
 	if err != nil {
 		return ev.Verdict{OK: false, Msg: "INFRA: " + err.Error()}
 	}
@@ -242,7 +260,7 @@ func run(c Case) ev.Verdict {
 	}
 
 	if c.Auth != "password" {
-		opts = append(opts, options.WithAuthPrivateKey(keyPath, ""))
+		opts = append(opts, options.WithAuthPrivateKey(keyPath, givenPass))
 	}
 
 	if c.KnownHosts != "none" {
@@ -305,10 +323,24 @@ func run(c Case) ev.Verdict {
 		}
 	}
 
+	if c.KeyEnc == "wrong" {
+		// the key cannot be used: nothing to authenticate with, or the password alone
+		if c.Auth == "key" {
+			wantOK, eitherWay = false, false
+		} else {
+			eitherWay = true
+		}
+	}
+
 	t0 := time.Now()
 	openErr := d.open()
 	took := time.Since(t0)
 	closed := false
+
+	if c.KeyEnc != "" && c.Transport == "system" && errors.Is(openErr, util.ErrBadOption) {
+		// the system transport says, explicitly, that it does not take passphrase protected keys
+		return ev.Verdict{OK: true, Infeasible: true, Classes: []string{"system-transport-refuses-key-passphrase"}}
+	}
 
 	if openErr == nil {
 		defer func() {
@@ -352,7 +384,7 @@ func run(c Case) ev.Verdict {
 
 		wantKey := strings.TrimSpace(string(marshalKey(keyPub)))
 
-		if c.Auth != "password" {
+		if c.Auth != "password" && c.KeyEnc != "wrong" {
 			found := false
 
 			for _, k := range keys {
